@@ -182,6 +182,15 @@ AdmitNext == steps < MaxSteps /\
   \/ Subscribe(c2, 4, << <<<<"a">>, 0>> >>)
   \/ ApiPublish(<<"a">>, 0, FALSE, "x")
 AdmitSpec == AdmitInit /\ [][AdmitNext]_vars
+\* every wire form of an acceptable CONNECT, on a fresh identifier, on one with a stored session (resumed and replaced),
+\* and with a zero-length identifier (key k3 stands for the identifier the broker assigns)
+FormNext == steps < MaxSteps /\
+  \/ \E form \in ConnectForms, cl \in BOOLEAN : ConnectF(c1, k1, cl, NoWill, form)
+  \/ \E form \in AnonForms : ConnectF(c1, k3, TRUE, NoWill, form)
+  \/ Subscribe(c1, 1, << <<<<"a">>, 1>> >>)
+  \/ End(c1, "disconnect") \/ End(c1, "cut")
+  \/ ApiPublish(<<"a">>, 1, FALSE, "x")
+FormSpec == Free(ANames) /\ [][FormNext]_vars
 \* an authenticator that accepts user "good" only: refused logins that name the client id of a stored
 \* persistent session (with CleanSession 1 and 0) must leave that session alone
 SelNext == steps < MaxSteps /\
